@@ -212,6 +212,28 @@ def run(ctx):
             dn = [l for l in c.leaves if l.kind == "assign" and key(l.target) == "done" and is1(l.value)]
             if dn and dn[0].fsm is not None and incs[0].fsm is not None and dn[0].fsm is not incs[0].fsm:
                 ob3.refute("done-fsm:%s" % tag, "done is raised by the command FSM, not by the FSM that compares the data", dn[0].loc)
+        # an up/down counter written as two independent statements: when both conditions hold in one cycle only the later assignment takes effect
+        for v, side in ((g, "generator"), (c, "checker")):
+            by_t = {}
+            for l_ in v.leaves:
+                if l_.kind in ("assign", "nextvalue") and l_.domain != "comb" and l_.target is not None and l_.inst == "":
+                    by_t.setdefault(key(l_.target), []).append(l_)
+            for tk_, ls_ in sorted(by_t.items()):
+                ups = [l_ for l_ in ls_ if lin_eq(l_.value, Op("+", (l_.target, Const(1))))]
+                dns = [l_ for l_ in ls_ if lin_eq(l_.value, Op("-", (l_.target, Const(1))))]
+                for u_ in ups:
+                    for d_ in dns:
+                        pu = [expand_term(v, c_ if p_ else Op("~", (c_,))) for c_, p_ in u_.guards]
+                        pd = [expand_term(v, c_ if p_ else Op("~", (c_,))) for c_, p_ in d_.guards]
+                        both, cx = implies(pu + pd, [Const(0)])
+                        ob3.instance("%s %s: up/down counter %s" % (tag, side, tk_), {"+1 under": sorted(v.guard_keys(u_, False)), "-1 under": sorted(v.guard_keys(d_, False)),
+                                                                                     "exclusive": both is True})
+                        if both is False and any(any(o_ in k_ for o_ in (" == ", " != ", "<", ">")) for k_ in (cx or {})):
+                            ob3.unknown("%s %s: whether the +1 and -1 statements of %s can hold together depends on comparisons that are not independent - not decided" % (tag, side, tk_))
+                        elif both is False:
+                            ob3.refute("lost-count:%s:%s:%s" % (side, tk_, tag), "%s: %s is incremented under %s and decremented under %s by two separate statements: in a cycle where both "
+                                       "hold only the later one takes effect and a count is lost - a completion or level test on it is off by one from then on" %
+                                       (side, tk_, sorted(v.guard_keys(u_, False)), sorted(v.guard_keys(d_, False))), d_.loc)
         # ---- C14.4 ----
         for v, side in ((g, "generator"), (c, "checker")):
             RR = RG if v is g else RC
